@@ -199,4 +199,63 @@ theorem C05_end_to_end_bundled (c : Ctx) (r : RegCtx) (gs : List String) (groups
   exact C05_end_to_end c r gs groups kerning q marks im tk td s tag g1 g2 hw hctx hg1 hg2
     hsD htag hin1 hin2 hfeat hnames hclean
 
+/-- The assumption "lookup flags do not matter for an adjacent pair" costs nothing for IgnoreMarks lookups: the writer never
+    puts a GDEF mark glyph into a rule of a lookup that carries the flag (such rules are made from the base halves of the
+    pairs only) — so a shaper, or the reference interpreter, that lets an IgnoreMarks lookup skip every pair containing a mark
+    applies the same adjustments as `applyKern`, which ignores the flag. -/
+theorem C05_marks_never_in_base_lookup (c : Ctx) (r : RegCtx) (gs : List String) (groups : List (String × List String))
+    (kerning : List (String × String × Q)) (q : Q) (ms : List String) (im tk td : Bool)
+    (hnames : namesOK c (getKerningPairs gs (getKerningGroups gs groups) q kerning) (some ms) im = true)
+    (l : Lookup) (hl : l ∈ (program c r gs groups kerning q (some ms) im tk td).lookups) (hflag : l.ignoreMarks = true)
+    (rule : Rule) (hr : rule ∈ l.rules) (g : String) (hg : g ∈ rule.side1 ∨ g ∈ rule.side2) : g ∉ ms := by
+  have hinj := nameInj_of_namesOK c _ (some ms) im hnames
+  obtain ⟨minv, _⟩ := makeKerningLookups_spec c (genPairs gs groups kerning q) (some ms) im hinj
+  obtain ⟨_, hBL, _⟩ := emitted_spec _ hinj _ minv
+  rw [program_lookups] at hl
+  obtain ⟨it, hit, rfl⟩ := mem_map.mp (hBL l hl)
+  unfold allItems at hit
+  obtain ⟨lst, hlst, hit'⟩ := mem_flatMap.mp hit
+  obtain ⟨m1, hm1, rfl⟩ := pairLists_sub _ (some ms) im lst hlst
+  unfold bucketItems at hit'
+  obtain ⟨e, he, rfl⟩ := mem_map.mp hit'
+  have hflag' : m1.flag = true := hflag
+  by_cases hempty : ms = []
+  · rw [hempty]; simp
+  · -- the only mode with the flag is the base mode
+    have hbase : m1 = .base ms := by
+      unfold modes at hm1
+      have hne : ms.isEmpty = false := by
+        cases ms with
+        | nil => exact absurd rfl hempty
+        | cons _ _ => rfl
+      cases im with
+      | false =>
+        simp only [Bool.false_eq_true, if_false, mem_singleton] at hm1
+        rw [hm1] at hflag'; cases hflag'
+      | true =>
+        simp only [if_true, hne, Bool.false_eq_true, if_false, mem_cons, mem_nil_iff, or_false] at hm1
+        rcases hm1 with h | h
+        · exact h
+        · rw [h] at hflag'; cases hflag'
+    subst hbase
+    obtain ⟨sp, hsp, hro⟩ := rule_prov c _ _ e rule hr
+    obtain ⟨a1, a2, _⟩ := ruleOf_some c e.1 sp rule hro
+    obtain ⟨p0, _, p, hp, k, hpart, _⟩ := cell_prov c _ (.base ms) e he sp hsp
+    obtain ⟨_, _, sub1, sub2⟩ := cell_sides c p k sp hpart
+    simp only [Mode.σ] at hp
+    obtain ⟨b1, b2, _⟩ := mem_mkPair _ _ _ _ hp
+    intro hgm
+    have hc : ms.contains g = true := contains_iff_mem.mpr hgm
+    rcases hg with hg | hg
+    · rw [a1] at hg
+      have := hit_base ms p0.side1 g
+      rw [b1, hc] at this
+      simp only [C05.hit, Bool.not_true, Bool.and_false, decide_eq_false_iff_not] at this
+      exact this (sub1 g hg)
+    · rw [a2] at hg
+      have := hit_base ms p0.side2 g
+      rw [b2, hc] at this
+      simp only [C05.hit, Bool.not_true, Bool.and_false, decide_eq_false_iff_not] at this
+      exact this (sub2 g hg)
+
 end Ufo2ft.C05
